@@ -116,6 +116,22 @@ def write_search_cases(path, seed, tier):
                     "sources": [0, n // 2], "family": "grid-dag(%d,%d)" % (r, c)})
         out.append({"k": "dijkstra", "dir": False, "g": enc_graph(n, e, False, {x: rng.choice([0, 1]) for x in e}),
                     "sources": [0, n - 1], "family": "grid(%d,%d) w in {0,1}" % (r, c)})
+    # chains of "long direct edge vs. short detour" gadgets: 2^k distinct path lengths to the last
+    # hub - the classical worst case of a label-correcting search that pops in a bad order
+    for k in ([3, 5, 8] if tier == "quick" else [3, 5, 8, 10, 12]):
+        n = 2 * k + 1
+        e, w = set(), {}
+        for i in range(k):
+            sc = 1 << (k - 1 - i)
+            hub, det, nxt = 2 * i, 2 * i + 1, 2 * i + 2
+            for (a, b, wt) in ((hub, nxt, 4 * sc), (hub, det, 1), (det, nxt, 2 * sc - 1)):
+                e.add((a, b))
+                w[(a, b)] = wt
+        out.append({"k": "dijkstra", "dir": True, "g": enc_graph(n, e, True, w), "sources": [0],
+                    "family": "detour-chain(%d)" % k})
+        eu = {(min(a, b), max(a, b)) for (a, b) in e}
+        out.append({"k": "dijkstra", "dir": False, "g": enc_graph(n, eu, False, {(min(a, b), max(a, b)): w[(a, b)] for (a, b) in e}),
+                    "sources": [0, n - 1], "family": "detour-chain-undirected(%d)" % k})
     # complete DAGs and zero-weight cycles
     for n in ([6, 8] if tier == "quick" else [6, 8, 12, 16]):
         e = {(i, j) for i in range(n) for j in range(n) if i < j}
@@ -154,21 +170,21 @@ def write_remap_cases(path, seed, tier):
 
 
 # ------------------------------------------------------------------ running
-def run_all(pid, case_sets, file_sets, seed, ah_exe, validate=True):
+def run_all(pid, case_sets, file_sets, seed, ah_exe, validate=True, invariants=("AllResultsOK",)):
     """case_sets: [Cases]; file_sets: [(name, path, extra_plan)].  -> (results, violations)"""
     results, violations = [], []
 
     def one_cases(cs):
         r = algo.run_cases(pid, with_families(cs), ah_exe, seed)
         if validate and r.get("records"):
-            r["validation"] = algo.validate_records(pid, cs.name, r["records"])
+            r["validation"] = algo.validate_records(pid, cs.name, r["records"], invariants=invariants)
         return r
 
     def one_file(item):
         name, path, extra = item
         r = algo.run_ah_on_file(pid, name, path, ah_exe, seed, extra_plan=extra)
         if validate and r.get("records"):
-            r["validation"] = algo.validate_records(pid, name, r["records"])
+            r["validation"] = algo.validate_records(pid, name, r["records"], invariants=invariants)
         return r
 
     with concurrent.futures.ThreadPoolExecutor(max_workers=4) as ex:
@@ -206,7 +222,7 @@ def run_all(pid, case_sets, file_sets, seed, ah_exe, validate=True):
                 path = os.path.join(vf.REPLAYS, "%s-%s-record%d.json" % (pid, name, k))
                 with open(path, "w") as f:
                     json.dump({"kind": "record", "cases": name, "index": rej["index"], "record": rej["record"],
-                               "note": "the record violates Search!RecordOK"}, f, indent=1)
+                               "note": "the record violates Search!ResultsOK / ScansOK"}, f, indent=1)
                 rec = rej["record"]
                 violations.append({"replay": path, "what": "record rejected by TLC: %s on %s from source %s (family %s)" %
                                    (rec.get("k"), json.dumps(rec.get("g"))[:200], rec.get("s"), rec.get("family"))})
@@ -332,7 +348,7 @@ def _algo_models(pid, tier, which):
     return out, viol
 
 
-def _search_property(pid, tier, seed, bfs, dijkstra):
+def _search_property(pid, tier, seed, bfs, dijkstra, invariants=("AllResultsOK",)):
     ah = vf.build_ah("o1")
     want = set()
     if bfs:
@@ -340,7 +356,7 @@ def _search_property(pid, tier, seed, bfs, dijkstra):
     if dijkstra:
         want.add("dijkstra")
     results, violations = run_all(pid, _search_sets(tier, bfs=bfs, dijkstra=dijkstra),
-                                  _search_files(pid, tier, seed, want), seed, ah)
+                                  _search_files(pid, tier, seed, want), seed, ah, invariants=invariants)
     m, mv = _algo_models(pid, tier, (["bfs"] if bfs else []) + (["dijkstra"] if dijkstra else []))
     return violations + mv, coverage_of(results + m), ALGO_ASSUMPTIONS
 
@@ -354,7 +370,7 @@ def c12(pid, tier, seed):
 
 
 def c19(pid, tier, seed):
-    return _search_property(pid, tier, seed, True, True)
+    return _search_property(pid, tier, seed, True, True, invariants=("AllScansOK",))
 
 
 def c07_algo_sets(tier):
